@@ -20,6 +20,11 @@ impl SignatureConverter<'_> {
     /// Convert from an standalone `fn` signature to a trait `fn` signature.
     pub fn convert_fn_to_trait_fn(&self) -> EntraitSignature {
         let mut entrait_sig = EntraitSignature::new(self.input_sig.sig.clone());
+        // (the fn itself is passed through as it is; the signature of the method is printed anew)
+        syn::visit_mut::VisitMut::visit_signature_mut(
+            &mut super::fragments::FragmentsToParens,
+            &mut entrait_sig.sig,
+        );
 
         // a trait method cannot be `const`, the fn stays what it is
         entrait_sig.sig.constness = None;
